@@ -5,7 +5,7 @@
    the remaining ones by the correspondence run over the whole operation alphabet on the sentinel. *)
 From Coq Require Import ZArith List Bool Lia.
 From MV Require Import Ast Eval Scalar Machine Model Policy.
-From MV.Proofs Require Import Arith Logic Prim View OpsLocal Guards Grow CapHistory Sentinel.
+From MV.Proofs Require Import Arith Logic Prim View OpsLocal Guards Grow CapHistory Sentinel Grow CapHistory Core Refine Clone Append.
 Import ListNotations.
 Open Scope Z_scope.
 
@@ -69,3 +69,19 @@ Qed.
 Print Assumptions C06_deref_is_empty.
 Print Assumptions C06_drain_and_splice.
 Print Assumptions C06_capacity_family_from_the_sentinel.
+
+(* append(&mut self, other): from EVERY pair of storage states (each of the two never allocated,
+   empty, full, with spare capacity ...): self holds its elements followed by other's, in order; other
+   is empty; no element is created, destroyed or duplicated (the ledger is untouched); a refused
+   reservation (capacity overflow) leaves both vectors exactly as they were *)
+Theorem C06_append_is_list_concatenation :
+  forall cfg ncap, cfg_ok cfg -> policy_ok ncap ->
+  forall s v o lv lo,
+  vabs cfg s v lv -> vabs cfg s o lo -> v <> o ->
+  (forall bv blv bo blo, vec_at s v bv blv -> vec_at s o bo blo -> bv <> bo) ->
+  NoDup (lv ++ lo) ->
+  post (append cfg ncap v o s)
+    (fun _ s' => vabs cfg s' v (lv ++ lo) /\ vabs cfg s' o [] /\ only_changes s s' [])
+    (fun s' => s' = s).
+Proof. exact append_abs. Qed.
+Print Assumptions C06_append_is_list_concatenation.
